@@ -274,7 +274,7 @@ TIMESIM = {"quick": ([0, 1000, 2000, 3000, 5000, 6000, 9000, 10000, 11000, 60000
 def gen_timesim(tier, seed, outdir, mqv, root):
     import replay_time
     ks, num = TIMESIM[tier]
-    trace, bad, n, steps = replay_time.run(ks, seed, num, 60, outdir, mqv)
+    trace, bad, n, steps = replay_time.run(ks, seed, num, 110, outdir, mqv)
     drift = [{"cfg": "Timers", "behaviour": i, "mismatch": mm[:2]} for i, mm in bad[:20]]
     json.dump({"tool_errors": [], "drift": drift,
                "samples": [{"group": "timesim", "keep_alives_ms": ks, "behaviours": n, "steps_replayed": steps, "nonconformant": len(bad)}]},
